@@ -2,9 +2,9 @@
 exactly the frozen branch facts (structural, name-free).  The frozen instances are those of the tree whose behaviour was confirmed."""
 import re
 from mir import callee_of, op_local
-from panics import sdesc_operand
-from errguard import structural_facts
-import engine
+from panics import sdesc_operand, sdesc_place, sdesc_rv, skey_call
+from errguard import structural_facts, canon_fact
+import engine, inline
 
 TRIVIAL = re.compile(r'^(deref|deref_mut|as_ref|as_mut|borrow|borrow_mut|branch|from_residual|into|from|to_owned|clone|to_path_buf|to_string|new|'
                      r'into_iter|iter|iter_mut|as_slice|as_str|is_some|is_none|is_ok|is_err|unwrap|expect|ok|map|and_then|or|unwrap_or|len|is_empty|'
@@ -12,59 +12,206 @@ TRIVIAL = re.compile(r'^(deref|deref_mut|as_ref|as_mut|borrow|borrow_mut|branch|
                      r'box_assume_init_into_vec_unsafe|new_uninit|path|path_buf|alt|alt_buf|rel|rel_buf|mode|file_name|components|last|first)$')
 
 
+class BodyOnly:
+    """the slice of the call-graph interface SITE-GUARD needs, for a fact file without a call graph (the macro harness)"""
+    def __init__(self, F):
+        self.F, self._c = F, {}
+
+    def body(self, n):
+        if n not in self._c:
+            from mir import Body
+            self._c[n] = Body(self.F.bodies[n])
+        return self._c[n]
+
+
+def pure_query(B, t):
+    """an infallible read-only question (bool / Option / reference result, no &mut argument): when it is evaluated does not matter, its answer is a branch fact
+    of the sites it guards"""
+    dt = B.local_ty(t['dest']['l']) if not t['dest']['p'] else ''
+    if not dt or dt in ('()', '!') or dt.startswith('std::result::Result') or dt.startswith('std::ops::ControlFlow'):
+        return False
+    if not (dt == 'bool' or dt.startswith('std::option::Option<&') or dt.startswith('&') and not dt.startswith('&mut')):
+        return False
+    for a in t['args']:
+        l = op_local(a)
+        if l is not None and B.local_ty(l).startswith('&mut'):
+            return False
+    if t.get('callable_args') or 'closure' in str(t.get('callee')):
+        return False
+    return True
+
+
+def _rv_desc(B, rv):
+    if rv['k'] == 'aggregate' and rv.get('agg') == 'adt' and rv.get('fields'):
+        return '%s{%s}' % (rv.get('variant') or '', ','.join('%s:%s' % (f, sdesc_operand(B, o, 1)) for f, o in zip(rv['fields'], rv['ops'])))
+    return sdesc_rv(B, rv)
+
+
+def returns_of(F, cg, fn, amap=None, prefix=(), depth=0):
+    """(kind, facts) of every literal-kind return of fn; a tail call of a helper that did not exist in the confirmed tree returns what the helper returns"""
+    B = cg.body(fn)
+    out = []
+    for i, j, s in B.assigns():
+        if s['place']['l'] == 0 and not s['place']['p']:
+            rv = s['rv']
+            v = None
+            if rv['k'] == 'aggregate' and rv.get('variant') in ('None', 'Some', 'Ok'):      # Err exits are the error-constructor call sites
+                v = rv['variant']
+            elif rv['k'] == 'use' and rv['op']['k'] == 'const' and 'bool' in rv['op']:
+                v = str(rv['op']['bool']).lower()
+            sf = structural_facts(B, i)
+            if v is None and rv['k'] == 'use' and rv['op']['k'] in ('copy', 'move'):
+                # `return x` where a dominating test fixed x's variant is the same exit as returning that variant literally
+                d0 = sdesc_operand(B, rv['op'])
+                vs = [vv for d, vv in sf if d == d0 and vv in ('Some', 'None', 'Ok')]
+                if len(vs) == 1:
+                    v = vs[0]
+            if v is None:
+                continue
+            out.append((v, sorted(set(prefix) | inline.fact_strings(sf, canon_fact, amap))))
+    if depth < 3:
+        for i, t in B.calls():
+            if t['dest']['l'] == 0 and not t['dest']['p']:
+                c = t.get('resolved') or t.get('callee') or callee_of(t) or ''
+                if c != fn and inline.is_new_helper(F, c):
+                    here = sorted(set(prefix) | inline.fact_strings(structural_facts(B, i), canon_fact, amap))
+                    sub = {k + 1: inline.subst(sdesc_operand(B, a), amap) for k, a in enumerate(t['args'])}
+                    out += returns_of(F, cg, c, sub, here, depth + 1)
+    return out
+
+
 def collect(F, cg, fns):
+    import panics
+    panics.PHI = True
+    try:
+        return _collect(F, cg, fns)
+    finally:
+        panics.PHI = False
+
+
+def _collect(F, cg, fns):
     res = {}
     for fn in fns:
         if fn not in F.bodies:
             continue
-        B = cg.body(fn)
-        for i, t in B.calls():
+        for _B, i, t, facts, _inl in inline.walk_calls(F, cg, fn, structural_facts, canon_fact):
             c = (t.get('callee') or callee_of(t) or '')
             short = c.split('::')[-1]
-            if TRIVIAL.match(short):
+            if TRIVIAL.match(short) or pure_query(_B, t):
                 continue
-            facts = sorted({'%s=%s' % (d, v) for d, v in structural_facts(B, i) if v != 'Ok'})
             res.setdefault('%s|call %s' % (fn, short), []).append(facts)
-        # distinct constant-like return values (None / Some / Ok / Err / true / false)
-        for i, j, s in B.assigns():
-            if s['place']['l'] == 0 and not s['place']['p']:
-                rv = s['rv']
-                v = None
-                if rv['k'] == 'aggregate' and rv.get('variant') in ('None', 'Some', 'Ok', 'Err'):
-                    v = rv['variant']
-                elif rv['k'] == 'use' and rv['op']['k'] == 'const' and 'bool' in rv['op']:
-                    v = str(rv['op']['bool']).lower()
-                if v is None:
-                    continue
-                facts = sorted({'%s=%s' % (d, vv) for d, vv in structural_facts(B, i) if vv != 'Ok'})
-                if v == 'Err' and any(f.endswith('=Err') for f in facts):
-                    continue        # an explicit `Err(e) => return Err(..)` arm is the long form of `?` (whose exit is from_residual, not a literal)
-                res.setdefault('%s|return %s' % (fn, v), []).append(facts)
+            # the operands handed to the callee (first three, structurally described; parameters of an inlined helper replaced by the actual arguments)
+            res.setdefault('%s|args %s' % (fn, short), []).append([inline.subst(skey_call(_B, t), _inl)])
+        B = cg.body(fn)
+        for i, j, st in B.assigns():
+            pl, rv = st['place'], st['rv']
+            # stores through a reference (self.pos = .., file.data = .., entry.mode = ..): what is stored, where, under which facts
+            if pl['p'] and pl['p'][0]['k'] == 'deref' and any(e['k'] == 'field' for e in pl['p']):
+                facts = sorted({'%s=%s' % (d, v) for d, v in structural_facts(B, i) if v != 'Ok'})
+                res.setdefault('%s|store %s' % (fn, sdesc_place(B, pl)), []).append([_rv_desc(B, rv)] + facts)
+            # struct literals of the crate's own types: the value of every field
+            elif rv['k'] == 'aggregate' and rv.get('agg') == 'adt' and rv.get('fields') and len(rv['ops']) > 1 and not str(rv.get('adt', '')).startswith(('std::', 'core::', 'alloc::')):
+                res.setdefault('%s|build %s' % (fn, str(rv.get('adt', '')).split('::')[-1]), []).append([_rv_desc(B, rv)])
+        for v, facts in returns_of(F, cg, fn):
+            res.setdefault('%s|return %s' % (fn, v), []).append(facts)
     for k in res:
         res[k] = sorted(res[k])
     return res
 
 
+M_ = '<sys::fs::memfs::vfs::Memfs>::'
+MV = '<sys::fs::memfs::vfs::Memfs as sys::fs::vfs::VirtualFileSystem>::'
+SD = '<sys::fs::stdfs::Stdfs>::'
+MEMFS_ALL = ('<sys::fs::memfs::',)
+FILE_IO = ('read', 'read_all', 'read_lines', 'write', 'write_all', 'write_lines', 'append', 'append_all', 'append_line', 'append_lines', '_clone_file', '_copy', 'mkfile', 'mkfile_m')
+LINK = ('readlink', 'readlink_abs', 'is_symlink', 'is_symlink_dir', 'is_symlink_file', 'is_file', 'is_dir', 'symlink', '_symlink', 'follow', 'link_to', 'from', 'entry', 'remove')
+PERM = ('_chmod', '_chown', 'chmod', 'chown', 'chmod_b', 'chown_b', 'set_mode', 'mode', 'is_exec', 'is_readonly', 'uid', 'gid', 'owner', 'mkdir_m', 'mkfile_m', '_mkdir_m')
+LIST = ('paths', 'dirs', 'files', 'all_paths', 'all_dirs', 'all_files', 'entries', '_entries', '_clone_entries', 'entry_iter')
+
+
+def _item(n):
+    return n.split('::')[-1]
+
+
+def _backend(n):
+    return n.startswith((M_, MV, SD))
+
+
+# which functions' branching skeleton each property freezes (by root function; closures follow their root)
+GROUP_PRED = {
+    'C01': lambda n: n.startswith(MEMFS_ALL) and not n.startswith('<sys::fs::memfs::file::'),
+    'C02': lambda n: n.startswith(('<sys::fs::stdfs::',)) and ' as sys::fs::vfs::VirtualFileSystem>' not in n,
+    'C03': lambda n: n.startswith((M_, MV, '<sys::fs::memfs::vfs::MemfsGuard', '<sys::fs::memfs::vfs::MemfsInner', '<sys::fs::memfs::entry::MemfsEntry>')),
+    'C06': lambda n: _backend(n) and _item(n) in FILE_IO,
+    'C07': lambda n: n.startswith('<sys::fs::memfs::file::MemfsFile'),
+    'C08': lambda n: n.startswith(('<sys::fs::entries::', '<sys::fs::entry_iter::', '<sys::fs::memfs::entry::MemfsEntryIter')) or (_backend(n) and _item(n) in LIST),
+    'C09': lambda n: (_backend(n) and _item(n) in ('_copy', 'copy', 'copy_b', 'move_p')) or n.startswith('<sys::fs::copy::'),
+    'C10': lambda n: (n.startswith(('<sys::fs::memfs::', '<sys::fs::stdfs::')) and _item(n) in LINK and ' as sys::fs::vfs::VirtualFileSystem>' not in n.replace(MV, ''))
+    or n.startswith('sys::fs::entry::Entry::'),
+    'C11': lambda n: (n.startswith(('<sys::fs::memfs::', '<sys::fs::stdfs::')) and _item(n) in PERM and ' as sys::fs::vfs::VirtualFileSystem>' not in n.replace(MV, ''))
+    or n.startswith(('sys::fs::chmod::', '<sys::fs::chmod::', 'sys::fs::chown::', '<sys::fs::chown::')),
+    'C15': lambda n: n.startswith('sys::fs::path::') and _item(n) not in ('expand', 'home_dir'),
+    'C17': lambda n: n in ('sys::fs::path::expand', 'sys::fs::path::home_dir'),
+    'C18': lambda n: n.startswith('sys::user::') or (_backend(n) and _item(n) == 'config_dir'),
+    'C19': lambda n: n.startswith(('<str as core::', '<std::string::String as core::', '<T as core::iter::', '<std::option::Option<T> as core::', '<std::iter::Peekable<I> as core::',
+                                   '<core::peekable::', '<core::defer::', 'core::defer::', '<std::path::Component', '<std::ffi::OsStr as core', '<std::path::Path as core::')),
+}
+
+
+def group_functions(F, pid):
+    pred = GROUP_PRED[pid]
+    out = []
+    for n, b in F.bodies.items():
+        root = b.get('root') if b['kind'] == 'Closure' else n
+        if root and pred(root):
+            out.append(n)
+    return sorted(out)
+
+
 def site_guard(rep, F, cg, table, fns, rule='SITE-GUARD'):
-    rep.rule(rule, 'in the listed core functions every call of a non-trivial callee and every literal-kind return (None / Some / Ok / Err / bool) is reached under '
+    rep.rule(rule, 'in the listed functions every call of an effectful or fallible callee and every literal-kind return (None / Some / Ok / bool) is reached under '
              'exactly the branch facts frozen in tables/site_guards.json (structural descriptions of the dominating bool / enum tests and their outcomes): the '
-             'branching skeleton of the algorithm agrees with the confirmed instance')
+             'branching skeleton of the algorithm agrees with the confirmed instance (one obligation per function; differing sites are listed)')
+    fns = list(fns)
+    have = set(fns)
+    # closures that appeared inside a frozen function belong to it
+    for n, b in F.bodies.items():
+        if b['kind'] == 'Closure' and b.get('root') in have and n not in have:
+            fns.append(n)
     cur = collect(F, cg, fns)
     n = 0
-    missing_fn = [f for f in fns if f not in F.bodies]
-    for f in missing_fn:
-        rep.add(rule, 'siteguard:%s:anchor' % f, '%s exists' % f, False, detail='core function %s not found (renamed?)' % f)
-    keys = {k for k in set(table) | set(cur) if k.split('|')[0] in fns}
-    for key in sorted(keys):
-        n += 1
-        want, got = table.get(key), cur.get(key)
-        short = key.replace('sys::fs::', '')
-        if want is None:
-            rep.add(rule, 'siteguard:%s' % key, 'site %s is a frozen site' % short, False, '', 'new site %s under %s (not in the frozen skeleton)' % (short, got))
-        elif got is None:
-            rep.add(rule, 'siteguard:%s' % key, 'site %s still exists' % short, False, '', 'site %s (frozen guards %s) no longer exists' % (short, want))
-        else:
-            ok = want == got
-            rep.add(rule, 'siteguard:%s' % key, 'site %s is reached under its frozen branch facts' % short, ok, '',
-                    '' if ok else 'site %s is now reached under %s; frozen: %s' % (short, got, want))
-    rep.floor(rule, 'guarded sites', n, max(3, len(fns)))
+    byfn = {}
+    for key in {k for k in set(table) | set(cur) if k != '_groups' and k.split('|')[0] in set(fns)}:
+        byfn.setdefault(key.split('|')[0], []).append(key)
+    for f in sorted(set(fns)):
+        b = F.bodies.get(f)
+        if b is None:
+            if '{closure' in f:
+                if not byfn.get(f):
+                    continue
+            else:
+                rep.add(rule, 'siteguard:%s:anchor' % f, '%s exists' % f, False, detail='function %s not found (removed, or renamed together with a signature change)' % f)
+                continue
+        diffs = []
+        for key in sorted(byfn.get(f, [])):
+            n += 1
+            want, got = table.get(key), cur.get(key)
+            site = key.split('|', 1)[1]
+            if want is None:
+                diffs.append('new site `%s` under %s' % (site, got))
+            elif got is None:
+                diffs.append('site `%s` (frozen guards %s) no longer exists' % (site, want))
+            elif want != got:
+                diffs.append('site `%s` is now reached under %s; frozen: %s' % (site, got, want))
+        ti = b.get('trait_item') if b else None
+        if diffs and ti:
+            mine = {k.split('|', 1)[1]: cur[k] for k in byfn.get(f, []) if k in cur}
+            it = ti.split('::')[-1]
+            if set(mine) <= {'call %s' % it, 'args %s' % it} and mine.get('call %s' % it) == [[]]:
+                diffs = []          # became a plain forwarder to a sibling implementation of the same trait method (frozen itself)
+        short = f.replace('sys::fs::', '')
+        where = '%s:%d' % (b['_file'], b['_line']) if b else ''
+        rep.add(rule, 'siteguard:%s' % f, 'every site of %s is reached under its frozen branch facts' % short, not diffs, where,
+                '' if not diffs else '%s: %s' % (short, ' || '.join(diffs[:6]) + (' || ... %d more' % (len(diffs) - 6) if len(diffs) > 6 else '')))
+    frozen = len([k for k in table if k != '_groups' and k.split('|')[0] in set(fns)])
+    rep.floor(rule, 'guarded sites', n, max(1, frozen))
